@@ -251,8 +251,9 @@ class Report:
     def check_minimums(self) -> None:
         for rule, n in self.minimums.items():
             und = [u for u in self.undecided if u.get("rule") == rule]
-            if any(u.get("why", "").startswith("idiom not recognised") for u in und):
-                continue      # reported as undecided: the mechanism is written in a way the rule does not follow
+            family = rule.split(".")[0]
+            if any(u.get("why", "").startswith("idiom not recognised") and u.get("rule", "").split(".")[0] == family for u in self.undecided):
+                continue      # reported as undecided: the mechanism of this rule family is written in a way the rules do not follow
             got = self.decided_counts.get(rule, 0) + len(und)
             if got < n:
                 raise AnalysisError(f"rule {rule}: only {got} instances decided, {n} confirmed by hand on the pinned tree"
